@@ -129,7 +129,14 @@ ROUTES = [
     ("optional-call", "({T})?.();", "sync"),
     ("async-function-body", "(async function(){{ {T}(); }})();", "sync"),
     ("async-arrow-body", "(async () => {{ {T}(); }})();", "sync"),
-    ("async-generator-body", "(async function*(){{ {T}(); }})().next();", "job"),
+    # the first next() of an async generator runs the body synchronously: the error surfaces from next() itself
+    ("async-generator-body", "(async function*(){{ {T}(); }})().next();", "sync"),
+    ("async-generator-after-await", "(async function*(){{ await 1; {T}(); }})().next();", "job"),
+    ("async-generator-second-next", "var _g = (async function*(){{ yield 1; {T}(); }})(); _g.next(); _g.next();", "job"),
+    ("async-generator-return-finally", "var _g = (async function*(){{ try {{ yield 1; }} finally {{ {T}(); }} }})(); _g.next(); _g.return(1);", "job"),
+    ("async-generator-throw-catch", "var _g = (async function*(){{ try {{ yield 1; }} catch (e) {{ {T}(); }} }})(); _g.next(); _g.throw(1);", "job"),
+    ("async-generator-yield*-async-iterator", "(async function*(){{ yield* {{[Symbol.asyncIterator](){{ return {{next(){{ {T}(); return {{done:true}}; }}}}; }}}}; }})().next();", "sync"),
+    ("for-await-over-async-generator", "(async function(){{ for await (var _x of (async function*(){{ {T}(); }})()) {{}} }})();", "sync"),
     ("promise-executor", "new Promise(function(){{ {T}(); }});", "sync"),
     ("promise-then", "Promise.resolve().then(function(){{ {T}(); }});", "job"),
     ("promise-catch", "Promise.reject(1).catch(function(){{ {T}(); }});", "job"),
